@@ -417,6 +417,40 @@ func (histEngine) generate(property string, seed int64, index int, tier string) 
 				}
 			}
 		}
+	} else if property == "C11" && r.Chance(1, 2) {
+		// election shapes with three or four candidates: a minority style first, then two
+		// styles that tie; the last record shows no style of its own
+		patterns := [][]int{{0, 1, 2, 1, 2}, {0, 1, 2, 2, 1}, {0, 1, 1, 2, 2}, {0, 1, 2}, {0, 1, 2, 3}, {2, 0, 1, 0, 1}, {0, 0, 1, 1}, {1, 2, 0, 2, 1, 0}}
+		pat := patterns[r.Intn(len(patterns))]
+		perm := []int{0, 1, 2, 3}
+		for i := 3; i > 0; i-- {
+			j := r.Intn(i + 1)
+			perm[i], perm[j] = perm[j], perm[i]
+		}
+		day := base.AddDate(0, 0, -len(pat)-1)
+		docA = GDoc{FinalNewline: true}
+		usePlaceholder := r.Chance(1, 3)
+		for _, k := range pat {
+			day = day.AddDate(0, 0, 1)
+			rec := GRecord{Y: day.Year(), M: int(day.Month()), D: day.Day(), Indent: indents[perm[k]], EOL: "\n", BlankAfter: []string{""}}
+			if usePlaceholder {
+				rec.Indent = indents[perm[0]]
+				rec.Entries = []GEntry{{Value: "8:00 - " + strings.Repeat("?", 1+k), Open: true}}
+			} else {
+				rec.Entries = []GEntry{{Value: "1h", Summary: []string{"x"}}}
+			}
+			rec.Date = fmtDate(rec.Y, rec.M, rec.D, false)
+			docA.Records = append(docA.Records, rec)
+		}
+		// a target without own style: today's record with no entries (or, for placeholders, one duration)
+		tr := GRecord{Y: base.Year(), M: int(base.Month()), D: base.Day(), Indent: indents[perm[0]], EOL: "\n", BlankAfter: []string{""}}
+		tr.Date = fmtDate(tr.Y, tr.M, tr.D, false)
+		if usePlaceholder {
+			tr.Entries = []GEntry{{Value: "1h"}}
+		}
+		if r.Chance(2, 3) {
+			docA.Records = append(docA.Records, tr)
+		}
 	}
 	w.setFile("a.klg", docA.render())
 	if r.Chance(1, 4) {
